@@ -19,6 +19,16 @@ import (
 
 const Root = "/verif"
 
+// OutRoot is where evidence and replay files go: /verif, unless VERIF_OUT redirects them (used only by
+// tools/trymutant_alt.sh, which runs a check against a patched copy of the sources without touching /repo or
+// the evidence of record).
+func OutRoot() string {
+	if d := os.Getenv("VERIF_OUT"); d != "" {
+		return d
+	}
+	return Root
+}
+
 // Finding is one entry of known_findings.json.
 type Finding struct {
 	Property string `json:"property"`
@@ -211,7 +221,7 @@ func (c *Ctx) Finish() {
 		nviol++
 		exit = 1
 		h := sha256.Sum256([]byte(v.Key))
-		dir := filepath.Join(Root, "replays", c.ID)
+		dir := filepath.Join(OutRoot(), "replays", c.ID)
 		os.MkdirAll(dir, 0o755)
 		path := filepath.Join(dir, hex.EncodeToString(h[:6])+".json")
 		v.Replay = path
@@ -284,8 +294,8 @@ func (c *Ctx) writeEvidence(nviol int) {
 		ev["assumptions"] = []string{}
 	}
 	b, _ := json.MarshalIndent(ev, "", " ")
-	os.MkdirAll(filepath.Join(Root, "evidence"), 0o755)
-	if err := os.WriteFile(filepath.Join(Root, "evidence", c.ID+".json"), b, 0o644); err != nil {
+	os.MkdirAll(filepath.Join(OutRoot(), "evidence"), 0o755)
+	if err := os.WriteFile(filepath.Join(OutRoot(), "evidence", c.ID+".json"), b, 0o644); err != nil {
 		fmt.Fprintf(os.Stderr, "ENGINE-ERROR writing evidence: %v\n", err)
 		os.Exit(3)
 	}
